@@ -87,7 +87,7 @@ fn main() {
                     if ws[0].starts_with("cn_") {
                         return cn.handle(&ws);
                     }
-                    if ws[0] == "thr_run" || ws[0] == "thr_idle" {
+                    if ws[0] == "thr_run" || ws[0] == "thr_idle" || ws[0] == "thr_ext" {
                         return threads::handle(&ws);
                     }
                     if ws[0] == "e2e_run" {
